@@ -1085,7 +1085,39 @@ func runSearchForwardsMiss(p *Prog, r *Report) {
 					return false
 				}
 				rs, ok := z.(*ast.ReturnStmt)
-				if !ok || len(rs.Results) != 1 {
+				if !ok {
+					return true
+				}
+				// the unpacked form: v, ok := c.F(); return v, ok — ok never examined
+				if len(rs.Results) == nres {
+					if id, isID := ast.Unparen(rs.Results[nres-1]).(*ast.Ident); isID && id.Name != "true" && id.Name != "false" {
+						o := info.ObjectOf(id)
+						as := fn.Assignments(o)
+						if len(as) == 1 {
+							if s, isAs := as[0].(*ast.AssignStmt); isAs && len(s.Rhs) == 1 && len(s.Lhs) == nres {
+								if c, isCall := ast.Unparen(s.Rhs[0]).(*ast.CallExpr); isCall {
+									examined := false
+									for _, a := range fn.GuardsAt(rs).AllAtoms() {
+										if a != nil && a.E != nil {
+											if gid, ok := ast.Unparen(a.E).(*ast.Ident); ok && info.ObjectOf(gid) == o {
+												examined = true
+											}
+										}
+									}
+									key := "return " + exprStr(c.Fun) + "(…) in a search loop"
+									if examined {
+										r.Add("E15.search-forwards-miss", fn.Name, key, p.Pos(rs), OK, "returned only after the lookup's ok was examined", true)
+									} else {
+										r.Add("E15.search-forwards-miss", fn.Name, key, p.Pos(rs), Violated,
+											"the loop searches for the first element that yields a result (the function answers false after the loop), but the result and ok of "+exprStr(c.Fun)+" are handed on unexamined: when it reports false for the first candidate, the remaining elements are never tried", true)
+									}
+								}
+							}
+						}
+					}
+					return true
+				}
+				if len(rs.Results) != 1 {
 					return true
 				}
 				call, ok := ast.Unparen(rs.Results[0]).(*ast.CallExpr)
